@@ -1,7 +1,7 @@
 CONSTANTS
   OurChains = {"cali-a", "cali-b", "cali-old", "felix-old"}
   KCh = {"K1"}
-  Modes = {"insert", "append"}
+  Modes = {"insert"}
   OwnsAllSet = {FALSE, TRUE}
   Rich = 0
   MaxLen = 3
